@@ -459,9 +459,15 @@ def parse_unary_expr(lexer):
         elif token.type == "decimal":
             return parse_pred_expr(lexer, True)
         else:
+            operand = parse_pred_expr(lexer)
+            if isinstance(operand, NodeLiteral) and operand.value.isDecimal():
+                # -(0.0) is the literal -0.0, as without the parentheses
+                return NodeLiteral(
+                    ValueDecimal(-operand.value.value), operand.pos
+                )
             call = NodeFuncall(NodeIdentifier("sub", pos), pos)
             call.addArg("a", NodeLiteral(ValueInt(0), pos))
-            call.addArg("b", parse_pred_expr(lexer))
+            call.addArg("b", operand)
             return call
     return parse_pred_expr(lexer)
 
